@@ -71,6 +71,8 @@ pub struct Director {
     pub clones: Vec<MPool>,
     /// handles obtained through `Object::pool()` (they hand out plain `Object`s)
     pub obj_handles: Vec<Pool<ScriptedManager>>,
+    /// random drive only: a call that was made eagerly may be given up before its first poll
+    pub allow_unpolled_drop: bool,
     pub tasks: Vec<Task>,
     pub held: Vec<MObject>,
     pub external: Vec<Obj>,
@@ -170,6 +172,7 @@ impl Director {
             pool: Some(pool),
             clones: Vec::new(),
             obj_handles: Vec::new(),
+            allow_unpolled_drop: false,
             tasks: Vec::new(),
             held: Vec::new(),
             external: Vec::new(),
@@ -253,8 +256,9 @@ impl Director {
         }
         // A call with per-call timeouts is sometimes *made* right here, i.e. the future `timeout_get()` returns
         // exists from now on although nobody has polled it yet (a prepared future, a `select!` branch that loses).
+        let probing = self.world().probe_mode;
         let eager: Option<EagerGet> = match (kind.per_call, &via) {
-            (Some(ct), None) if t % 4 == 1 => {
+            (Some(ct), None) if t % 4 == 1 && !probing => {
                 let mut w = self.world();
                 w.bump("gets_made_before_first_poll");
                 drop(w);
@@ -262,6 +266,7 @@ impl Director {
             }
             _ => None,
         };
+        let made_eagerly = eager.is_some();
         let fut: Pin<Box<dyn Future<Output = Res>>> = Box::pin(async move {
             let inner = async {
                 if let Some(e) = eager {
@@ -298,6 +303,14 @@ impl Director {
             flag: Arc::new(Flag(AtomicBool::new(false))),
         });
         self.sched.str("S");
+        if made_eagerly && self.allow_unpolled_drop && t % 8 == 1 {
+            // the call was made, the future is given up without ever being polled
+            let mut w = self.world();
+            w.ev(format!("t{} {:?}: timeout_get() called, future never polled", t, kind));
+            drop(w);
+            self.abandon(t);
+            return t;
+        }
         self.poll_task(t, format!("start t{} {:?}", t, kind));
         t
     }
